@@ -196,6 +196,17 @@ func script(kind string, m tc.Msg) (tc.Reply, bool) {
 	if strings.HasPrefix(name, "fresh/") {
 		return tc.Reply{Body: makeResp(k, name)}, true
 	}
+	if strings.HasPrefix(name, "async/") {
+		// a request nobody waits for whose reply never comes: held for ever; its id is remembered so that the
+		// futures table can be inspected after the timeout
+		if v, ok := asyncRuns.Load(name); ok {
+			r := v.(*run)
+			r.dmu.Lock()
+			r.extra = append(r.extra, m.Rpc.ID)
+			r.dmu.Unlock()
+		}
+		return tc.Reply{}, true
+	}
 	if v, ok := byName.Load(name); ok {
 		c := v.(*caller)
 		c.id = m.Rpc.ID
@@ -220,8 +231,22 @@ func wait(ch chan struct{}, d time.Duration) bool {
 	}
 }
 
+// asyncRuns: name of a shadow asynchronous request -> its run
+var asyncRuns sync.Map
+
 func (r *run) start() {
 	r.t.Add("Start", "cn", r.sc.Cn, "sig", "start")
+	for _, st := range r.sc.Steps {
+		if st.Op == "wave" {
+			// the scenario waits for the request timeout anyway: next to the callers one asynchronous request
+			// (SendAsyncRequest - the path RegisterTM takes on every new session) is sent and never answered;
+			// once the timeout is over it must have left the futures table like everything else
+			name := fmt.Sprintf("async/%d", r.i)
+			asyncRuns.Store(name, r)
+			_ = sgetty.GetGettyRemotingClient().SendAsyncRequest(makeReq(r.i, name))
+			break
+		}
+	}
 	for _, c := range r.callers {
 		c := c
 		go func() {
@@ -356,16 +381,28 @@ func (r *run) quiesce(patience time.Duration) {
 			r.t.Add("DeliveryStuck", "id", int(d.id), "kind", d.kind, "sig", d.sig)
 		}
 	}
-	pending := 0
-	for _, c := range r.callers {
-		if sgetty.GetGettyRemotingClient().GetMessageFuture(c.id) != nil {
-			pending++
+	count := func() int {
+		n := 0
+		for _, c := range r.callers {
+			if sgetty.GetGettyRemotingClient().GetMessageFuture(c.id) != nil {
+				n++
+			}
 		}
+		r.dmu.Lock()
+		extra := append([]int32(nil), r.extra...)
+		r.dmu.Unlock()
+		for _, id := range extra {
+			if sgetty.GetGettyRemotingClient().GetMessageFuture(id) != nil {
+				n++
+			}
+		}
+		return n
 	}
-	for _, id := range r.extra {
-		if sgetty.GetGettyRemotingClient().GetMessageFuture(id) != nil {
-			pending++
-		}
+	// the timers of requests nobody waits for fire on goroutines of their own: "after the timeout" is given two
+	// seconds of grace before an entry counts as left behind
+	pending := count()
+	for dl := time.Now().Add(2 * time.Second); pending > 0 && time.Now().Before(dl); pending = count() {
+		time.Sleep(20 * time.Millisecond)
 	}
 	// a fresh request must still be served
 	fresh := false
